@@ -54,6 +54,8 @@ struct Result {
    std::vector<uint64_t> probe_hits;  ///< per reach probe: entries of that function by simulated tasks
 };
 
+/// contents of fresh heap blocks from now on (0..255), -1 = whatever the allocator returns
+void set_malloc_fill(int byte);
 /// one-time initialisation (symbol table of the executable)
 void init();
 /// run fn(task, arg) in `n` simulated caller threads under the seeded scheduler; returns when all are done
